@@ -280,11 +280,11 @@ def eval_expr(e: ast.expr, env: dict[str, Any], oracle: Oracle | None = None) ->
                     return len(v)
             except AnalysisError:
                 pass
-        if f in ("max", "min", "int", "abs", "float", "round", "bool", "range", "tuple", "list", "sorted", "str") and not e.keywords:
+        if f in ("max", "min", "int", "abs", "float", "round", "bool", "range", "tuple", "list", "sorted", "str", "divmod", "bytes", "hex", "repr") and not e.keywords:
             args = [eval_expr(a, env, oracle) for a in e.args]
             try:
                 return {"max": max, "min": min, "int": int, "abs": abs, "float": float, "round": round, "bool": bool, "range": range, "tuple": tuple, "list": list,
-                        "sorted": sorted, "str": str}[f](*args)
+                        "sorted": sorted, "str": str, "divmod": divmod, "bytes": bytes, "hex": hex, "repr": repr}[f](*args)
             except (TypeError, ValueError) as ex:
                 raise Raised(ast.Raise(exc=ast.Name(id=type(ex).__name__, ctx=ast.Load()), cause=None))
         if oracle is not None:
